@@ -1054,7 +1054,7 @@ pub fn run(o: &Opts) {
     let mut st = Stats::new();
     // smaller files in the thorough tier: coqc memory grows with the size of the case literal
     let mut sh = Shards::new(&o.out, if o.thorough { o.shards * 6 } else { o.shards }, HEADER);
-    st.rule = "statement files for the three importers (Camt053 XML with payee captured from AddtlTxInf/AddtlNtryInf, code from AcctSvcrRef, currency attribute, charges, foreign amounts with rates; CSV in three date-first layouts: amount/balance/note/category/commodity/charge columns, credit/debit with secondary amount and rate, template payee - and, for a third of the CSV statements, a text-first layout: the FIRST column is the payee or the note, date / amount / balance / an ignored column follow in random order, fields by label or by index, first label possibly `#Payee` `# of record` `=Payee`, delimiter , ; tab or |, written by an RFC 4180 writer that quotes only what must be quoted, CRLF now and then, one file in ten behind a byte order mark; its payee and note cells begin with `#` `# ` `##` `\"` `\'` `;` `=` `+` `-` `@` space, tab, U+FEFF, `//` `%` `!` `*` `|` `,` `\\`, are such a mark alone, or are empty; Viseca text); every record is dated on purpose (harness/src/caldate.rs): a quarter in the days around New Year whose ISO week belongs to the neighbouring year, 1 January / 31 December, 29 February and the 28 February / 1 March of 1900 and 2100, month ends and starts, 1900-01-01 / 2100-12-31 / 1970-01-01 / 2038-01-19 / 2069-12-31, else uniform over 1900-2100 (1970-2069 where the year has two digits: Viseca, CSV `%d.%m.%y`), the records of one statement within a week that reaches or crosses the drawn day; CSV dates under %Y-%m-%d, %Y/%m/%d, %d.%m.%Y, %m/%d/%Y, %d.%m.%y, `%d %b %Y`; Camt053 dates as Dt or (1 in 8) DtTm with offsets up to +14:00 / -12:00; the generator's own date for each CSV record - and in the text-first layout its payee as one line - is checked against the transaction read back, and a statement without a junk cell that the importer refuses is a case (ModelMismatch); whose text fields are drawn from an adversarial pool (`;`, LF/CR/CRLF, injected transaction text, leading `(` `*` `!`, double space, tab, `:tag:`, `key: value`, non-ASCII, outer white space incl. U+3000/U+00A0, 2 kB fields, empty) with varied amounts (grouping commas, scales 0-5; CSV amount / credit / debit / balance / charge / secondary-amount cells bare, commodity-suffixed or prefixed with `$` / a currency code and the minus sign before or after the prefix: -$1.46, $-1,950.25, -USD 5, USD -5; the generator's own figure for each cell - also the rate and the secondary amount of a converted record - is checked against the transaction read back; one CSV statement in five has one amount / credit / debit / balance / charge / secondary-amount / rate cell in a notation okane's number grammar does not know or with trailing junk (6'540.35, 1 234.56, 12.50-, (12.50), +12.50, 1.234,56, 12,50, 1,23,456.78, 12..5, 12.50*, 5 USD EUR, --5, 1.5e0, 12.5x): refused, or read back as that very figure) and configured precisions 0-30; import + to_double_entry, printed as ImportCmd does, re-read with parse_ledger; non-trivial = some text field holds a character outside [A-Za-z0-9 ]; distinct by input + configuration".into();
+    st.rule = "statement files for the three importers (Camt053 XML with payee captured from AddtlTxInf/AddtlNtryInf, code from AcctSvcrRef, currency attribute, charges, foreign amounts with rates; CSV in three date-first layouts: amount/balance/note/category/commodity/charge columns, credit/debit with secondary amount and rate, template payee - and, for a third of the CSV statements, a text-first layout: the FIRST column is the payee or the note, date / amount / balance / an ignored column follow in random order, fields by label or by index, first label possibly `#Payee` `# of record` `=Payee`, delimiter , ; tab or |, written by an RFC 4180 writer that quotes only what must be quoted, CRLF now and then, one file in ten behind a byte order mark; its payee and note cells begin with `#` `# ` `##` `\"` `\'` `;` `=` `+` `-` `@` space, tab, U+FEFF, `//` `%` `!` `*` `|` `,` `\\`, are such a mark alone, or are empty; Viseca text); one record in ten carries no text at all - no payee, no code / reference, no note - so that the header is printed as `DATE * ` with the postings directly below (record:no_payee_no_code_no_note); every record is dated on purpose (harness/src/caldate.rs): a quarter in the days around New Year whose ISO week belongs to the neighbouring year, 1 January / 31 December, 29 February and the 28 February / 1 March of 1900 and 2100, month ends and starts, 1900-01-01 / 2100-12-31 / 1970-01-01 / 2038-01-19 / 2069-12-31, else uniform over 1900-2100 (1970-2069 where the year has two digits: Viseca, CSV `%d.%m.%y`), the records of one statement within a week that reaches or crosses the drawn day; CSV dates under %Y-%m-%d, %Y/%m/%d, %d.%m.%Y, %m/%d/%Y, %d.%m.%y, `%d %b %Y`; Camt053 dates as Dt or (1 in 8) DtTm with offsets up to +14:00 / -12:00; the generator's own date for each CSV record - and in the text-first layout its payee as one line - is checked against the transaction read back, and a statement without a junk cell that the importer refuses is a case (ModelMismatch); whose text fields are drawn from an adversarial pool (`;`, LF/CR/CRLF, injected transaction text, leading `(` `*` `!`, double space, tab, `:tag:`, `key: value`, non-ASCII, outer white space incl. U+3000/U+00A0, 2 kB fields, empty) with varied amounts (grouping commas, scales 0-5; CSV amount / credit / debit / balance / charge / secondary-amount cells bare, commodity-suffixed or prefixed with `$` / a currency code and the minus sign before or after the prefix: -$1.46, $-1,950.25, -USD 5, USD -5; the generator's own figure for each cell - also the rate and the secondary amount of a converted record - is checked against the transaction read back; one CSV statement in five has one amount / credit / debit / balance / charge / secondary-amount / rate cell in a notation okane's number grammar does not know or with trailing junk (6'540.35, 1 234.56, 12.50-, (12.50), +12.50, 1.234,56, 12,50, 1,23,456.78, 12..5, 12.50*, 5 USD EUR, --5, 1.5e0, 12.5x): refused, or read back as that very figure) and configured precisions 0-30; import + to_double_entry, printed as ImportCmd does, re-read with parse_ledger; non-trivial = some text field holds a character outside [A-Za-z0-9 ]; distinct by input + configuration".into();
     st.assumptions.push("account names and the operator (charge payee) come from the configuration and are well-formed account names / plain text; only statement-file text is adversarial".into());
     st.assumptions.push("amount fields of the Camt053 and Viseca statement files are valid numbers; CSV cells may be in a foreign notation or carry trailing junk, never a notation that okane's grammar reads as a different number (1,234 for 1.234)".into());
     let (corpus, replay) = corpus_runs(&o.corpus, &o.extra);
